@@ -247,10 +247,13 @@ func (m *Model) runCheck(prop, tier string, keep bool, timeout int) int {
 		// failed
 		isKnown := false
 		for _, k := range known.Open {
-			if k.Property == prop && k.Obligation == o.Name {
+			// findings are recorded by obligation (function#kind:label), not by return ordinal or line; an
+			// obligation of another property's clause that this check re-proves (selection rule) is the same finding
+			if k.Obligation == o.Name || k.Obligation == stripRet(o.Name) {
 				isKnown = true
-				fmt.Printf("KNOWN-FINDING: property=%s %s witness: %s\n", prop, o.Name, k.Witness)
+				fmt.Printf("KNOWN-FINDING: property=%s %s: %s\n", k.Property, o.Name, k.Witness)
 				knownHit = append(knownHit, o.Name)
+				break
 			}
 		}
 		if isKnown {
@@ -559,4 +562,12 @@ func (m *Model) runProbes(prop, replayDir string) (string, []string) {
 	fmt.Fprintf(&sb, "\noutput of the failing run:\n%s\n", truncate(string(out), 20000))
 	os.WriteFile(p, []byte(sb.String()), 0o644)
 	return p, failing
+}
+
+// stripRet drops the "@retN" suffix of an obligation name.
+func stripRet(n string) string {
+	if i := strings.LastIndex(n, "@ret"); i >= 0 {
+		return n[:i]
+	}
+	return n
 }
